@@ -1346,7 +1346,7 @@ Section Sim.
           rewrite Eg1. cbn [mbind].
           unfold double_filled. rewrite (smem_frel _ _ _ name HF), (smem_frel _ _ _ default_key HF).
           destruct (isd && negb (str_eqb name default_key) && smem name fills && smem default_key fills); [reflexivity|].
-          unfold fill_name_of, slot_fills_of. cbn [is_django andb].
+          unfold fill_name_of.
           set (fname := if isd && smem default_key fills then default_key else name).
           pose proof (slookup_frel _ _ _ HF fname) as Hf.
           assert (Hs1 : srel g1 c st G (WInst rid dl)).
@@ -1853,9 +1853,48 @@ Proof.
   intros g0 c0 t0 a0 g0' c0' H0. eapply IH; exact H0.
 Qed.
 
-(* read side: for an instance created by a component tag (it has an outer Context), a slot tag takes its fills from
-   the cache entry of the id it found under _DJC_COMPONENT_CTX - whatever else is in the cache or on the layer list *)
-Lemma slot_fills_of_own md rid ci name g ds : ci_outer ci <> None -> slot_fills_of md rid ci name g ds = ci_fills ci.
-Proof.
-  intro H. unfold slot_fills_of. destruct (ci_outer ci); [|contradiction]. rewrite andb_false_r. reflexivity.
-Qed.
+(* read side: what a slot tag renders is decided by the cache entry of the id it finds under _DJC_COMPONENT_CTX and by
+   nothing else in the cache - for every instance, both modes, any layer list *)
+Section SlotEntry.
+  Variable md : mode.
+  Variable rec : gstate -> ctxt -> tpl -> mres R.
+
+  Lemma mslot_filled_lemma name isd isr data body g c kwv rid ci g1 sf :
+    mkwargs data (dicts c) = Some kwv -> is_extracting (dicts c) = false ->
+    cget KEY (dicts c) = Some (CId rid) -> alookup rid (g_cctx g) = Some ci ->
+    slot_default_check rid ci name isd g = MOk g1 ->
+    isd && negb (str_eqb name default_key) && smem name (ci_fills ci) && smem default_key (ci_fills ci) = false ->
+    slookup (if isd && smem default_key (ci_fills ci) then default_key else name) (ci_fills ci) = Some sf ->
+    mslot md rec name isd isr data body g c =
+      mbind (slot_extra md ci true (dicts c)) (fun extra =>
+        if is_django md then
+          mbind (m_render_func rec sf (VRec kwv) (CSlotRef body (oid c) (oid c) (dicts c) (slot_rvars (dicts c))) g1
+                   (with_dicts c (cpush extra (dicts c)))) (fun '(a, g3, c2) => MOk (a, g3, with_dicts c2 (cpop (dicts c2))))
+        else
+          let '(used, g2) := match ci_outer ci with
+                             | Some o => (o, g1)
+                             | None => let '(o, g') := fresh g1 in ({| oid := o; dicts := [builtins] |}, g')
+                             end in
+          mbind (m_render_func rec sf (VRec kwv) (CSlotRef body (oid c) (oid used) (dicts c) (slot_rvars (dicts c))) g2
+                   (with_dicts used (cpush extra (dicts used)))) (fun '(a, g3, _) => MOk (a, g3, c))).
+  Proof.
+    intros Hk He Hc Ha Hd Hdf Hs. unfold mslot. rewrite Hk, He, Hc, Ha, Hd. cbn [mbind]. rewrite Hdf, Hs.
+    destruct isr; reflexivity.
+  Qed.
+
+  Lemma mslot_unfilled_lemma name isd data body g c kwv rid ci g1 :
+    mkwargs data (dicts c) = Some kwv -> is_extracting (dicts c) = false ->
+    cget KEY (dicts c) = Some (CId rid) -> alookup rid (g_cctx g) = Some ci ->
+    slot_default_check rid ci name isd g = MOk g1 ->
+    isd && negb (str_eqb name default_key) && smem name (ci_fills ci) && smem default_key (ci_fills ci) = false ->
+    slookup (if isd && smem default_key (ci_fills ci) then default_key else name) (ci_fills ci) = None ->
+    mslot md rec name isd true data body g c = MErr ETemplateSyntax /\
+    mslot md rec name isd false data body g c =
+      mbind (slot_extra md ci false (dicts c)) (fun extra =>
+        mbind (m_render_func rec (unfilled_fn body) (VRec kwv) (CSlotRef body (oid c) (oid c) (dicts c) (slot_rvars (dicts c))) g1
+                 (with_dicts c (cpush extra (dicts c)))) (fun '(a, g3, c2) => MOk (a, g3, with_dicts c2 (cpop (dicts c2))))).
+  Proof.
+    intros Hk He Hc Ha Hd Hdf Hs. unfold mslot. rewrite Hk, He, Hc, Ha, Hd. cbn [mbind]. rewrite Hdf, Hs.
+    split; reflexivity.
+  Qed.
+End SlotEntry.
